@@ -36,6 +36,22 @@ CLAIMED = {
         note='Enumeration over opcodes (as the property itself prescribes) with symbolic operands. C dispatch data are tied to the Python simulator by C06. Python format() digit rendering is abstracted by numeral tokens. '
              'Known finding recorded: relative jumps at 65535 with Wrap on fall back to a 1-byte DEFB.',
         design='4 (C07)', technique='enumeration of the finite opcode space with symbolic operands; real decoders executed on z3 proxies; z3 decides operand-value equality'),
+    'C06': dict(
+        text='For every dispatch slot, plain and contended builds, the real Python closure (Engine A) and the LLVM IR clang emits for the real C handler (Engine B) are executed from one symbolic machine state and z3 shows all '
+             'registers (29 plain / 30 contended incl. MEMPTR), memory and port events equal on every joint path (48K: all slots; 128K: I/O slots + every 32nd in quick, all in thorough). accept_interrupt likewise. Contended: the '
+             'contend() arguments of both sides are captured and compared cycle by cycle, and the real contend_48k/128k of both languages are shown equal for symbolic patterns (delay tables as an uninterpreted function). '
+             'Every entry of every C lookup table, as filled by the real init_* functions of a compiled copy, is compared with the Python table. The IR interpreter is validated each run on 240 concrete states against the compiled extension.',
+        note='Bound: one instruction. Not covered: the run/trace/exec_frame loops around the handlers (dispatch macro, interrupt test), CSimulator_load, the tools\' --python switch. Trusted: lib/llsym.py (IR reader/interpreter), '
+             'clang -O1 as the compiler of record, stubs for CPython calls (tracer callbacks become port events; refcounts ignored).',
+        design='4 (C06), 2.2', technique='symbolic execution of the Python closure and of the C handler\'s LLVM IR from one symbolic state; z3 equivalence per joint path', engine='symx+llsym'),
+    'C02': dict(
+        text='Direction 1: for all 1786 instruction slots the real Disassembler decodes memory whose operand bytes are symbolic; its text (numbers as numeral tokens, characters as symbolic characters) is fed to the real '
+             'Assembler._assemble and z3 shows the bytes equal the decoded bytes for every operand value, in bases n b c d h m (all 36 pairs for LD (IX+d),n), hex/decimal default, either case; relative jumps at a symbolic address 0..65535 with wrap on; '
+             'flagged variants are accepted as the property says. DEFB/DEFM/DEFW/DEFS over symbolic data with single and mixed sublength lists likewise (statements must tile the range). '
+             'Direction 2: 38 templates x 5 operand spellings with symbolic values are assembled, disassembled and re-assembled; byte equality by z3.',
+        note='Abstracted and trusted: the digit rendering of Python format()/int() (numeral tokens) and chr()/ord() of ordinary characters (symbolic characters; the characters that matter to quoting are realised). '
+             "Excluded as not 'signed operands': base m on port numbers and DEFS sizes. Outside: arithmetic expressions/odd whitespace in operands.",
+        design='4 (C02), 2.1 (numerals)', technique=TECH + '; symbolic numerals through the real text interface'),
 }
 NOT_APPLICABLE = {
     'C16': 'HTML link/anchor consistency is a property of generated document structure (which files and id= strings exist); there is no bounded arithmetic/data path to make symbolic - a solver encoding would be a copy of the writer (DESIGN.md section 5).',
@@ -72,6 +88,7 @@ def main():
                   'source_commits': [], 'add_only': True},
         'engines': [
             {'name': 'symx', 'path': 'lib/symx.py', 'serves_properties': sorted(CLAIMED), 'kind_free_text': 'symbolic execution of the real Python code on z3 bit-vector/array proxies, fork by re-execution'},
+            {'name': 'llsym', 'path': 'lib/llsym.py', 'serves_properties': ['C06'], 'kind_free_text': 'symbolic interpreter for the LLVM IR clang emits for c/csimulator.c (regenerated every run)'},
         ],
         'checks': checks,
         'not_applicable': na,
